@@ -1456,7 +1456,7 @@ func TestCheck(t *testing.T) {
 	r.Assume("a process is quiescent when no goroutine has a frame inside dag.(*notifier) (stack dump); wall-clock only bounds the wait for that (-> inconclusive)")
 	r.Assume("receiver behaviour is a function of the attempt number per (subscriber, transaction, event type) counted over all processes of a case")
 
-	nScen := r.Pick(36, 330)
+	nScen := r.Pick(36, 280)
 	maxTx := r.Pick(14, 30)
 	type job struct {
 		sc   *scenario
